@@ -202,7 +202,8 @@ def worker(ctx, job):
         replay = {"engine": "fsx", "mode": "fault", "scenario": sc, "faults": []}
         if rep["status"] != "ok" or not out or "ok" not in out[-1]:
             V.violation(res, "fault:%s/%s:clean-run-%s" % (op, flavour, classify(out[-1]) if out else rep["status"]), "fault-free run failed: %r" % (out[-1:] or rep.get("error")), replay)
-        res["probe"] = {"sc": sc, "steps": [{"sys": s["sys"], "len": s["len"], "flags": s["flags"]} for s in rep["steps"] if s.get("step") is not None]}
+        res["probe"] = {"sc": sc, "steps": [{"sys": s["sys"], "len": s["len"], "flags": s["flags"]} for s in rep["steps"] if s.get("step") is not None],
+                        "trace": fsx.sys_trace(rep, [cache, destdir])}
         return res
 
     for faults in job["faultsets"]:
@@ -214,6 +215,9 @@ def worker(ctx, job):
         res["distinct"].add(V.h(op, flavour, fdesc))
         sigp = "fault:%s/%s:%s" % (op, flavour, fclass)
         injected = any(s.get("note") == "fault-injected" for s in rep["steps"]) or any(f.get("short") is not None for f in faults)
+        if job.get("trace") and rep["status"] == "ok":
+            res["extra"]["prefix_checked_steps"] = res["extra"].get("prefix_checked_steps", 0) + fsx.assert_same_prefix(
+                rep, job["trace"], min(f["step"] for f in faults) + 1, [cache, destdir], "C13 %s/%s" % (op, flavour))
         if rep["status"] != "ok":
             V.violation(res, sigp + ":" + rep["status"], "operation under fault %s did not terminate (%s)" % (fdesc, rep["status"]), replay)
             continue
@@ -332,7 +336,7 @@ def main(tier, seed=0):
             fs = fault_sets(pr["steps"], pairs=tier != "quick")
             nsets += len(fs)
             for i in range(0, len(fs), 20):
-                jobs.append({"kind": "fault", "sc": pr["sc"], "faultsets": fs[i:i + 20]})
+                jobs.append({"kind": "fault", "sc": pr["sc"], "faultsets": fs[i:i + 20], "trace": pr.get("trace")})
         for r in pool.imap_unordered(R._work, jobs, chunksize=1):
             if "machinery_error" in r:
                 merr.append(r["machinery_error"])
@@ -341,8 +345,8 @@ def main(tier, seed=0):
     finally:
         pool.terminate()
         pool.join()
-    agg["extra"] = {"operations": OPS, "flavours": list(flavours), "fault_sets": nsets, "pairs": tier != "quick",
-                    "steps_per_op": {"%s/%s" % (p["sc"]["op"], p["sc"]["flavour"]): len(p["steps"]) for p in probes}}
+    agg["extra"].update({"operations": OPS, "flavours": list(flavours), "fault_sets": nsets, "pairs": tier != "quick",
+                    "steps_per_op": {"%s/%s" % (p["sc"]["op"], p["sc"]["flavour"]): len(p["steps"]) for p in probes}})
     return R.finish(PROP, tier, agg, merr, time.time() - t0, level="fault_enumeration",
                     rule="case = (operation, flavour, set of injected faults); single faults: every file-system system call of the operation x every applicable errno "
                          "(EIO everywhere, ENOSPC on creating/extending calls, EACCES on path calls, EMFILE on opens) and every write answered short then failed; thorough: all "
